@@ -455,7 +455,21 @@ func (w *World) escapesToClient(f *ssa.Function) bool {
 				// send operand of a select state
 			case *ssa.Call:
 				if x.Call.Value != v {
-					esc = true // passed as an argument
+					// passed as an argument: to a module function, follow the parameter; otherwise it escapes
+					h := x.Call.StaticCallee()
+					if h == nil || h.Blocks == nil || !w.modSet[h] {
+						esc = true
+						break
+					}
+					for i, a := range x.Call.Args {
+						if a == v {
+							if i < len(h.Params) {
+								visit(h.Params[i])
+							} else {
+								esc = true
+							}
+						}
+					}
 				}
 			case *ssa.Go:
 				if x.Call.Value != v {
